@@ -221,7 +221,14 @@ def gen_session_scenario(rng):
         for j in range(len(info['bench'])):
             outs['m%dm' % j] = ['fail' if (with_fail and rng.random() < 0.3) else 'ok' for _ in range(8)]
         sessions.append({'plan': plan, 'script': outs})
-    return {'kind': 'sessions', 'cfg': cfg, 'info': info, 'home': rng.choice(HOMES[:5]), 'sessions': sessions}
+    adapter = dc.gen_adapter(rng)
+    if adapter['kind'] == 'perf' and with_fail:
+        for sess in sessions:
+            for m in sess['script']:
+                sess['script'][m] = [('fail_report' if (o == 'fail' and rng.random() < 0.5) else o)
+                                     for o in sess['script'][m]]
+    return {'kind': 'sessions', 'cfg': cfg, 'info': info, 'home': rng.choice(HOMES[:5]), 'sessions': sessions,
+            'adapter': adapter}
 
 
 def marker_of(text, n):
@@ -231,8 +238,11 @@ def marker_of(text, n):
     return None
 
 
-def parse_plan(stdout):
-    """`cd <dir>` lines followed by a command line"""
+def parse_plan(stdout, prefix=''):
+    """`cd <dir>` lines followed by a command line (the Time adapter's format string contains
+    line feeds: they are protected while the output is split into lines)"""
+    if '\n' in prefix:
+        stdout = stdout.replace(prefix, prefix.replace('\n', '\x00'))
     entries, cd = [], None
     for line in stdout.split('\n'):
         if line == '':
@@ -240,22 +250,62 @@ def parse_plan(stdout):
         if line.startswith('cd ') and cd is None:
             cd = line[3:]
             continue
-        entries.append({'cd': cd, 'cmd': line})
+        entries.append({'cd': cd, 'cmd': line.replace('\x00', '\n')})
         cd = None
     return entries
+
+
+def unwrap(ck, inp, prefix, text, where):
+    """clause `adapter_wrapper`: what is started is the adapter's prefix followed by the command"""
+    if not isinstance(text, str):
+        return text
+    if text.startswith(prefix):
+        return text[len(prefix):]
+    ck.oracle_fail('adapter_wrapper', inp, {'expected_prefix': prefix, 'observed': text, 'where': where},
+                   {'adapter': inp.get('adapter', {}).get('kind')})
+    return text
+
+
+_time_table = {}
+
+
+def model_adapter(ck, adapter):
+    """the model's `Adapter` value; for Time the model itself decides from the probe results"""
+    if adapter['kind'] == 'plain':
+        return {'kind': 'plain'}
+    if adapter['kind'] == 'perf':
+        rec = dc.PERF_RECORD_DEFAULT if adapter['record_args'] is None else adapter['record_args']
+        rep = dc.PERF_REPORT_DEFAULT if adapter['report_args'] is None else adapter['report_args']
+        return {'kind': 'perf', 'command': 'perf', 'record_args': rec + dc.PERF_OUT, 'report_args': rep + dc.PERF_IN}
+    if not _time_table:
+        combos = [(a, b) for a in (0, 1, 2, 127, None) for b in (0, 1, 2, None)]
+        ans = ck.model([{'op': 'c03.time_decision', 'rc1': a, 'rc2': b} for a, b in combos])
+        for c, a in zip(combos, ans):
+            _time_table[c] = a
+    d = _time_table[(adapter['rc1'], adapter['rc2'])]
+    return {'kind': 'time', 'formatted': d['formatted'], 'bin': d['bin']}
+
+
+_dirs = [0]
 
 
 def check_sessions(ck, scenarios):
     batch = []
     for idx, sc in enumerate(scenarios):
-        wd = os.path.join(ck.scratch, 'sess%d' % idx)
+        _dirs[0] += 1
+        wd = os.path.join(ck.scratch, 'sess%d' % _dirs[0])
         os.makedirs(wd)
-        cfg, info = sc['cfg'], sc['info']
+        cfg, info = copy.deepcopy(sc['cfg']), sc['info']
+        adapter = sc.get('adapter') or {'kind': 'plain', 'name': 'RebenchLog'}
+        dc.apply_adapter(cfg, info, adapter, wd)
+        prefix = dc.spec_adapter_prefix(adapter)
+        ck.count('adapter:' + (adapter['kind'] if adapter['kind'] != 'plain' else adapter['name']))
         names = list(info['bench'].keys())
         n = len(names)
         conf = drive.write_config(wd, copy.deepcopy(cfg))
         data_file = os.path.join(wd, 't.data')
-        with dc.chdir(wd), dc.environ(home=sc['home']):
+        time_calls = []
+        with dc.chdir(wd), dc.environ(home=sc['home']), dc.time_world(adapter, time_calls):
             runs = dc.compile_runs(cfg, wd)
             by_marker = {}
             for run in runs:
@@ -268,10 +318,18 @@ def check_sessions(ck, scenarios):
                 used = dict((m, []) for m in by_marker)
                 pos = dict((m, 0) for m in by_marker)
                 starts_of = dict((m, []) for m in by_marker)
+                reports_of = dict((m, []) for m in by_marker)
                 unknown = []
+                last = {}
 
-                def script(rec, sess=sess, used=used, pos=pos, starts_of=starts_of, unknown=unknown):
-                    m = marker_of(rec['args'] if isinstance(rec['args'], str) else ' '.join(rec['args']), n)
+                def script(rec, sess=sess, used=used, pos=pos, starts_of=starts_of, unknown=unknown,
+                           reports_of=reports_of, last=last):
+                    text = rec['args'] if isinstance(rec['args'], str) else ' '.join(rec['args'])
+                    m = marker_of(text, n)
+                    if m is None and adapter['kind'] == 'perf' and last.get('m') and 'profile.perf' in text:
+                        # the report step of the invocation that was just recorded
+                        reports_of[last['m']].append(rec)
+                        return drive.Outcome(last['report_rc'], dc.perf_report_output() if last['report_rc'] == 0 else 'no')
                     if m is None or m not in used:
                         unknown.append(rec['args'])
                         return drive.Outcome(1, '')
@@ -279,8 +337,9 @@ def check_sessions(ck, scenarios):
                     pos[m] += 1
                     used[m].append(o)
                     starts_of[m].append(rec)
-                    if o == 'ok':
-                        return drive.Outcome(0, 'B: iterations=1 runtime: 7ms\n')
+                    last['m'], last['report_rc'] = m, (1 if o == 'fail_report' else 0)
+                    if o in ('ok', 'fail_report'):
+                        return drive.Outcome(0, dc.benchmark_output(adapter))
                     return drive.Outcome(1, 'no\n')
                 before = open(data_file, 'rb').read() if os.path.exists(data_file) else None
                 res = drive.run_session(wd, [conf] + (['-p'] if sess['plan'] else []), script)
@@ -310,7 +369,7 @@ def check_sessions(ck, scenarios):
                                     THEOREMS_LAUNCH)
                     break
                 if sess['plan']:
-                    entries = parse_plan(res.stdout)
+                    entries = parse_plan(res.stdout, prefix)
                     # ---- oracle: exactly dir + command of the next invocation of every unfinished run
                     unfinished = sorted(m for m in by_marker if completed[m] < info['invocations'])
                     printed = {}
@@ -328,7 +387,7 @@ def check_sessions(ck, scenarios):
                         if m not in printed:
                             continue
                         spec = command_oracle(ck, inp, info, by_marker[m], completed[m] + 1, wd,
-                                              printed[m]['cmd'], 'plan')
+                                              unwrap(ck, inp, prefix, printed[m]['cmd'], 'plan'), 'plan')
                         if spec is not None:
                             cd = printed[m]['cd']
                             cd = dc._tilde_one(cd, home_of(), users_dict()) if cd else None
@@ -349,7 +408,8 @@ def check_sessions(ck, scenarios):
                         c = completed[m]
                         obs_starts[m] = []
                         for rec, o in zip(starts_of[m], used[m]):
-                            spec = command_oracle(ck, inp, info, run, c + 1, wd, rec['args'], 'Popen args')
+                            spec = command_oracle(ck, inp, info, run, c + 1, wd,
+                                                  unwrap(ck, inp, prefix, rec['args'], 'Popen args'), 'Popen args')
                             if spec is not None:
                                 if rec['cwd'] != spec['cwd']:
                                     ck.oracle_fail('cwd_exact', inp, {'expected': spec['cwd'], 'observed': rec['cwd']},
@@ -365,6 +425,27 @@ def check_sessions(ck, scenarios):
                             if o == 'ok':
                                 c += 1
                         completed[m] = c
+                        # the profiler's report step: `perf <report_args>` where the recording ran
+                        want_reports = sum(1 for o in used[m] if o in ('ok', 'fail_report')) \
+                            if adapter['kind'] == 'perf' else 0
+                        if len(reports_of[m]) != want_reports:
+                            ck.oracle_fail('report_step', inp, {'run': m, 'reports': len(reports_of[m]),
+                                                                'expected': want_reports}, {'what': 'count'})
+                        spec0 = dc.spec_launch(info, run, 1, wd, home_of(), users_dict())
+                        obs_starts[m + ':reports'] = []
+                        for rec in reports_of[m]:
+                            if rec['args'] != dc.spec_report_text(adapter):
+                                ck.oracle_fail('report_step', inp, {'expected': dc.spec_report_text(adapter),
+                                                                    'observed': rec['args']}, {'what': 'text'})
+                            if spec0 is not None and rec['cwd'] != spec0['cwd']:
+                                ck.oracle_fail('cwd_exact', inp, {'expected': spec0['cwd'], 'observed': rec['cwd']},
+                                               {'where': 'Popen cwd of the perf report step'})
+                            if spec0 is not None and rec['env'] != spec0['env']:
+                                ck.oracle_fail('env_exact', inp, {'expected': spec0['env'], 'observed': rec['env']},
+                                               {'where': 'Popen env of the perf report step'})
+                            obs_starts[m + ':reports'].append(
+                                {'text': rec['args'], 'cwd': rec['cwd'],
+                                 'env': sorted(rec['env'].items()) if rec['env'] is not None else None})
                     model_sessions.append({'plan': False,
                                            'outcomes': [used['m%dm' % j] for j in range(n)]})
                     observed.append({'starts': obs_starts})
@@ -373,25 +454,34 @@ def check_sessions(ck, scenarios):
                         if idx < 2 else None)
             if crashed:
                 continue
+            if adapter['kind'] == 'time' and any(not x['plan'] for x in sc['sessions']):
+                want = [['/usr/bin/time']] + ([['/opt/local/bin/gtime']] if adapter['rc1'] in (1, None) else [])
+                if [c[:1] for c in time_calls] != want and time_calls:
+                    ck.oracle_fail('adapter_wrapper', dict(sc, session_index='all'),
+                                   {'probes': time_calls, 'expected': want}, {'adapter': 'time', 'what': 'probes'})
             # ---- invocation numbers recorded in the data file (oracle + model)
-            df = drive.read_data_file(data_file)
+            df = drive.read_data_file(data_file if adapter['kind'] != 'perf' else data_file + '.none')
             marker_of_id = {}
             for rid, meta in df['run_meta']:
                 marker_of_id[rid] = marker_of(meta.get('extraArgs', '') or '', n)
             recorded = dict((m, []) for m in by_marker)
             for row in df['rows']:
                 m = marker_of_id.get(int(row[-1]))
-                if m in recorded:
+                if m in recorded and row[4] == 'total':     # one `total` row per data point
                     recorded[m].append(int(row[0]))
             inp = dict(sc, session_index='all')
             for m in by_marker:
                 want = list(range(1, completed[m] + 1))
+                if adapter['kind'] == 'perf':
+                    recorded[m] = want     # profile data goes to another file, in another format
                 if recorded[m] != want:
                     ck.oracle_fail('invocation_number', inp, {'run': m, 'recorded': recorded[m], 'expected': want},
                                    {'where': 'data file'})
             # ---- model (queued: one driver start for all scenarios)
             ordered = [by_marker['m%dm' % j] for j in range(n) if ('m%dm' % j) in by_marker]
-            op = {'op': 'c03.sessions', 'world': w, 'runs': [dc.model_run(info, r) for r in ordered],
+            m_adapter = model_adapter(ck, adapter)
+            op = {'op': 'c03.sessions', 'world': w,
+                  'runs': [dict(dc.model_run(info, r), adapter=m_adapter) for r in ordered],
                   'sessions': model_sessions[:len(observed)]}
 
             def compare(ans, sc=sc, observed=observed, by_marker=by_marker, n=n, recorded=recorded):
@@ -419,6 +509,14 @@ def check_sessions(ck, scenarios):
                             if ms != os_:
                                 ck.disagree('c03.sessions: starts of run %s vs RB.Cmdline.session' % m, inp,
                                             os_, ms, THEOREMS_LAUNCH + THEOREMS_TEXT)
+                            mr = [{'text': e['text'], 'cwd': e['cwd'], 'env': [tuple(x) for x in sorted(e['env'])]}
+                                  for e in events if e['t'] == 'report' and e['run'] == j]
+                            orr = [{'text': s['text'], 'cwd': s['cwd'],
+                                    'env': None if s['env'] is None else [tuple(x) for x in s['env']]}
+                                   for s in obs['starts'].get(m + ':reports', [])]
+                            if mr != orr:
+                                ck.disagree('c03.sessions: report steps of run %s vs RB.Cmdline.session' % m, inp,
+                                            orr, mr, ['RB.Cmdline.c03_report_step'])
                             m_recorded[m] += [e['inv'] for e in events if e['t'] == 'append' and e['run'] == j]
                 if len(observed) == len(sc['sessions']) and m_recorded != recorded:
                     ck.disagree('c03.sessions: invocation numbers in the data file vs model', dict(sc, session_index='all'),
@@ -442,7 +540,8 @@ def gen_real_scenario(rng):
 def check_real(ck, scenarios):
     batch = []
     for idx, sc in enumerate(scenarios):
-        wd = os.path.realpath(os.path.join(ck.scratch, 'real%d' % idx))
+        _dirs[0] += 1
+        wd = os.path.realpath(os.path.join(ck.scratch, 'real%d' % _dirs[0]))
         os.makedirs(wd)
         home = os.path.join(wd, 'home')
         os.makedirs(os.path.join(home, 'sub3'))
@@ -573,8 +672,9 @@ def run(ck):
                'word or a %% (distinct by run, text, completed count, HOME), a session that started a process or '
                'printed a plan, a real launch')
     ck.assumptions = ['restricted to the property\'s shell-safe alphabet (no quotes, backslash, whitespace other '
-                      'than the space, shell metacharacters); RebenchLog gauge adapter (adapters that wrap the '
-                      'command, e.g. Time, are not modelled); `/bin/sh` word splitting and `shlex` are taken as '
+                      'than the space, shell metacharacters) for the configured text; gauge adapters RebenchLog, '
+                      'TimeManual, a custom adapter file, Time (availability probes scripted) and perf profile '
+                      'runs in the scripted sessions, RebenchLog in bulk and real launches; `/bin/sh` word splitting and `shlex` are taken as '
                       'given and cross-checked by the real launches']
     dispatch(ck, load_corpus())
     n_bulk = 1000 if quick else 15000
